@@ -31,7 +31,7 @@ from ..mutate import mutate, remove_stmts, replace_expr, replace_stmt, parse_stm
 from ..model import AnalysisError
 from ..x_sint import check_sint
 from ..x_paths import path_states, satisfied
-from ..x_resolve import normalise, expand, resolve, unique_def, callee, arg_map, in_annotation
+from ..x_resolve import normalise, expand, resolve, unique_def, callee, arg_map, in_annotation, concat_pieces, lazy_widened, call_arg
 
 TECHNIQUE = "exception-escape lint against a frozen raise table + SINT + provenance table of the environ dict literal + guard dominance of the default-header insertions"
 EXPLANATION = (
@@ -61,7 +61,7 @@ def _req(fi):
 
 def rule_total(ck, fi):
     req = _req(fi)
-    facts = must_facts(fi.cfg)
+    facts = lazy_widened(fi)
     pm = q.parent_map(fi.node)
     n = 0
     for x in q.walk_body(fi.node):
@@ -124,12 +124,15 @@ def rule_total(ck, fi):
             a = resolve(fi, c.args[0]) if c.args else None
             if not isinstance(a, ast.Call):
                 raise AnalysisError("C47.environ-total: argument of to_wsgi_str is not a recognisable call (%s)" % (q.unparse(a) if a is not None else "?"))
-            ok = isinstance(a, ast.Call) and ((q.call_attr(a) == "url_unescape" and q.kwarg(a, "encoding") is not None and q.is_const(q.kwarg(a, "encoding"), None)) or q.call_attr(a) == "utf8")
+            enc_ = call_arg(ck.repo, fi, a, 1, "encoding") if q.call_attr(a) == "url_unescape" else None
+            ok = isinstance(a, ast.Call) and ((q.call_attr(a) == "url_unescape" and enc_ is not None and q.is_const(enc_, None)) or q.call_attr(a) == "utf8")
             n += 1
             ck.ob("C47.environ-total", fi, c, ok, "to_wsgi_str() asserts a bytes argument: it is fed url_unescape(.., encoding=None) (bytes) or utf8(..)")
             continue
         if d in SAFE_CALLS or (isinstance(c.func, ast.Attribute) and name in SAFE_METHODS):
             continue
+        if isinstance(c.func, ast.Attribute) and name == "join" and isinstance(c.func.value, ast.Constant) and isinstance(c.func.value.value, str) and len(c.args) == 1 and isinstance(c.args[0], (ast.List, ast.Tuple)):
+            continue   # "".join([str pieces]) of header-derived strings cannot raise
         raise AnalysisError("C47.environ-total: unmodelled call %s in environ (not in the frozen no-raise table)" % q.unparse(c.func))
     n += check_sint(ck, "C47.environ-total", fi, mode="total", ascii_only=True, lookup_callers=False)
     # to_wsgi_str itself: decode('latin1') is total
@@ -224,8 +227,9 @@ def rule_keys(ck, fi):
                 raise AnalysisError("C47.cgi-keys: PATH_INFO is decoded in an unrecognised way: %s" % q.unparse(v))
             return False
         c = calls[0]
-        plus = q.kwarg(c, "plus")
-        return c.args and q.dotted(c.args[0]) == req + ".path" and plus is not None and q.is_const(plus, False)
+        plus = call_arg(ck.repo, fi, c, 2, "plus")
+        val_ = call_arg(ck.repo, fi, c, 0, "value")
+        return val_ is not None and q.dotted(val_) == req + ".path" and plus is not None and q.is_const(plus, False)
 
     prov("PATH_INFO", path_ok, "is the percent-decoded request path, decoded with plus=False ('+' stays '+')")
     # SERVER_NAME / SERVER_PORT from the canonical splitter
@@ -284,7 +288,7 @@ def rule_headers(ck, fi):
     asg, envname, table = _env_dict(fi)
     hdrs = req + ".headers"
     n = 0
-    facts = must_facts(fi.cfg)
+    facts = lazy_widened(fi)
     # CONTENT_TYPE / CONTENT_LENGTH
     stores = {}
     dynamic = 0
@@ -319,7 +323,8 @@ def rule_headers(ck, fi):
         CONTENT = {"content_type", "content_length", "content-type", "content-length"}
         for s in sts:
             ke = expand(fi, s.targets[0].slice)
-            ok_prefix = isinstance(ke, ast.BinOp) and isinstance(ke.op, ast.Add) and q.is_const(ke.left, "HTTP_")
+            pcs = concat_pieces(ke)
+            ok_prefix = bool(pcs) and q.is_const(pcs[0], "HTTP_")
             if not ok_prefix:
                 # a header stored without the HTTP_ prefix: allowed only for the two CGI content headers
                 restricted = unknown = False
@@ -412,6 +417,11 @@ def rule_response(ck):
         if sv == recv:
             return False, True   # the test looks into the list of (name, value) pairs itself: a str is never an element of it
         b = unique_def(sfi, sv) if sv.isidentifier() else None
+        if b is None and not sv.isidentifier():
+            try:
+                b = ast.parse(sv, mode="eval").body   # the tested collection written in place
+            except SyntaxError:
+                b = None
         if b is None:
             raise AnalysisError("C47.response: the set %s tested for header presence has no unique definition" % sv)
         low = isinstance(b, (ast.SetComp, ast.ListComp, ast.GeneratorExp)) and isinstance(b.elt, ast.Call) and q.call_attr(b.elt) == "lower" or (isinstance(b, ast.Call) and q.dotted(b.func) in ("set", "frozenset", "list", "tuple") and any(isinstance(c2, ast.Call) and q.call_attr(c2) == "lower" for c2 in ast.walk(b)))
@@ -438,7 +448,7 @@ def rule_response(ck):
         if c.func.attr == "extend" or not (isinstance(el, ast.Tuple) and len(el.elts) == 2):
             raise AnalysisError("C47.response: insertion %s into the header list is not an append of a (name, value) pair" % q.unparse(c))
         N, V = el.elts
-        F = must_facts(sfi.cfg)[nd.id]
+        F = lazy_widened(sfi)[nd.id]
         if isinstance(N, ast.Constant) and isinstance(N.value, str):
             hname = N.value
             want = repr(hname.lower()) + " in "
@@ -458,7 +468,8 @@ def rule_response(ck):
             raise AnalysisError("C47.response: the presence test guarding the default %s is not of a recognised form" % hname)
         n += 1
         ck.ob("C47.response", sfi, c, bool(guard), "default %s is added only under a 'lower-cased name not in <app header names>' test (the application's header is never overridden or duplicated)" % hname)
-        for t in guard:
+        ident = [t for t in guard if t[len(want):].isidentifier()]
+        for t in (ident or guard[:1]):
             sv = t[len(want):]
             low, from_list = lowered_set(sfi, sv, recv)
             n += 2
@@ -560,6 +571,9 @@ def rule_response(ck):
                         d = resolve(fi, x)
                         if isinstance(d, ast.Call) and q.dotted(d.func) in ("functools.partial", "partial") and d.args and q.dotted(d.args[0]) == "next":
                             pulls.append((a.targets[0].id, d))
+                        elif isinstance(d, ast.Lambda) and isinstance(d.body, ast.Call) and q.is_call(d.body, "next"):
+                            # lambda: next(it, sentinel)  ==  partial(next, it, sentinel)
+                            pulls.append((a.targets[0].id, ast.Call(func=ast.Name(id="partial", ctx=ast.Load()), args=[ast.Name(id="next", ctx=ast.Load())] + list(d.body.args), keywords=[])))
     if not pulls:
         raise AnalysisError("C47.response: the step that pulls the next chunk from the application iterable was not found (unknown idiom)")
     for chunkv, h in pulls:
@@ -601,10 +615,15 @@ def rule_response(ck):
     for a in sp:
         v = a.value
         n += 1
-        ck.ob("C47.response", fi, a, len(v.args) == 2 and q.is_const(v.args[0], " ") and q.is_const(v.args[1], 1), "the status line is split once at the first space (the reason phrase keeps its spaces)")
+        sep_, mx_ = call_arg(ck.repo, fi, v, 0, "sep"), call_arg(ck.repo, fi, v, 1, "maxsplit")
+        ck.ob("C47.response", fi, a, sep_ is not None and q.is_const(sep_, " ") and mx_ is not None and q.is_const(mx_, 1), "the status line is split once at the first space (the reason phrase keeps its spaces)")
         codev, reasonv = [q.dotted(e) for e in a.targets[0].elts]
         for r in rsl:
-            args = r.value.args
+            args = list(r.value.args)
+            kwmap = {k.arg: k.value for k in r.value.keywords}
+            for fld in ("version", "code", "reason")[len(args):]:
+                if fld in kwmap:
+                    args.append(kwmap[fld])
             intsrc = [b.value for b in q.walk_body(fi.node) if isinstance(b, ast.Assign) and len(args) > 1 and q.dotted(args[1]) in q.assigned_paths(b)]
             okc = len(args) == 3 and any(isinstance(b, ast.Call) and q.is_call(b, "int") and q.dotted(b.args[0]) == codev for b in intsrc)
             n += 1
